@@ -6,6 +6,7 @@
 #include "ref/ref_lzh.hpp"
 #include "Archive/VolFile.h"
 #include <memory>
+#include <cctype>
 #include <set>
 #include <functional>
 #include <algorithm>
@@ -335,6 +336,9 @@ void build(Ctx& ctx)
 		custom({ { "t[1}", 3 }, { "T{1]", 5 } });
 		custom({ { "x^", 1 }, { "x~", 2 }, { "X`", 4 }, { "x@", 7 } });
 		custom({ { "a|b", 2 }, { "a\\b", 3 }, { "A]", 1 }, { "a}", 0 } });
+		// inputs named like the destination with a suffix a writer might use for a temporary or backup copy (the sets are packed into out0.vol, out1.vol, ...)
+		custom({ { "out0.vol.tmp", 9 }, { "out1.vol.tmp", 300 }, { "zz", 3 } });
+		custom({ { "out0.vol.bak", 5 }, { "out0.vol~", 6 }, { "out0.vol.new", 7 }, { "out0.vol.part", 8 } });
 		std::string l255(255, 'n'), l254(254, 'n'), l100(100, 'q');
 		custom({ { l255, 5 } });
 		custom({ { l254, 4 }, { l255, 3 }, { "a", 2 } });
@@ -357,7 +361,7 @@ void build(Ctx& ctx)
 	}
 #if VOL_CHECK == 1
 	gExtras.push_back({ 1000 });   // first: the longest case (about a second: 2 GiB of zeros copied between tmpfs files)
-	for (int k = 0; k < 14; ++k) gExtras.push_back({ k });
+	for (int k = 0; k < 17; ++k) gExtras.push_back({ k });
 #else
 	gExtras.push_back({ 1000 });
 	for (int k = 0; k < (ctx.thorough ? 64 : 16); ++k) gExtras.push_back({ k });
@@ -384,6 +388,10 @@ void refusalCase(Ctx& ctx, int k, Scenario& sc)
 	case 10: sc.refusal({ F(0, 6, 1, 0, "x.vol"), F(0, 2, 0, 0) }, "./d1/x.vol", true, "output-is-an-input-in-subdirectory"); break;
 	case 11: sc.refusal({ F(0, 6, 1, 1, "x.vol"), F(0, 2, 0, 0) }, "d1/x.vol", true, "output-is-an-input-in-subdirectory"); break;
 	case 12: sc.refusal({ F(0, 6, 1, 0, "x.vol") }, "D1/X.VOL", false, "output-is-an-input-up-to-case"); break;
+	// the same with the differently cased output already present as a file of its own (both spellings exist)
+	case 13: sc.refusal({ F(0, 6, 0, 0, "x.vol"), F(0, 2, 0, 0) }, "X.VOL", true, "output-is-an-input-up-to-case"); break;
+	case 14: sc.refusal({ F(0, 6, 0, 0, "x.vol") }, "./X.vol", true, "output-is-an-input-up-to-case"); break;
+	case 15: sc.refusal({ F(0, 6, 1, 0, "x.vol"), F(0, 2, 0, 0) }, "D1/X.VOL", true, "output-is-an-input-up-to-case"); break;
 	// a missing input: refused, and an existing output keeps its content
 	default: {
 		FileSet s = { F(0, 3, 0, 0), F(8, 2, 0, 0) };
@@ -505,7 +513,6 @@ void beyond2GiB(Ctx& ctx, Scenario& sc)
 	const uint64_t N = 0x7FFFFFF0ull;
 	std::vector<uint8_t> small; for (int i = 0; i < 43; ++i) small.push_back(uint8_t('a' + i % 26));
 	std::string key = "members a_big.bin (2147483632 zero bytes) and b_small.txt (43 bytes)";
-	ctx.sub(key);
 #if VOL_CHECK == 1
 	{ int fd = ::open("a_big.bin", O_CREAT | O_TRUNC | O_WRONLY, 0644); if (fd < 0 || ::ftruncate(fd, off_t(N)) != 0) std::abort(); ::close(fd); }
 	mc::writeFile("b_small.txt", small);
@@ -513,34 +520,47 @@ void beyond2GiB(Ctx& ctx, Scenario& sc)
 	ctx.transition();
 	if (oc.cls != 'R') { ctx.violation("C01/beyond-2GiB/create-refused", key, oc.what); return; }
 #else
-	std::vector<ref::VolMember> ms(2); ms[0].name = "a_big.bin"; ms[1].name = "b_small.txt"; ms[1].stored = small;
+	// three members: two of about 2 GiB and the small one, whose block header starts at 0xFFFFFFF8 - its data begins at offset 2^32
+	std::vector<ref::VolMember> ms(3); ms[0].name = "a_big.bin"; ms[1].name = "b_big.bin"; ms[2].name = "c_small.txt"; ms[2].stored = small;
 	auto img = ref::encodeVol(ms);
 	auto fieldAt = [&](const std::string& n) { for (auto& f : img.fields) if (f.name == n) return f.offset; std::abort(); };
+	const uint64_t H = img.blockOffsets[0];
+	const uint64_t N1 = 0xFFFFFFF8ull - H - 16 - N;
 	mc::set32(img.bytes, fieldAt("entry0.size"), uint32_t(N));
 	mc::set32(img.bytes, fieldAt("block0.length+flag"), uint32_t(N) | 0x80000000u);
-	uint64_t second = uint64_t(img.blockOffsets[0]) + 8 + N;
+	mc::set32(img.bytes, fieldAt("entry1.size"), uint32_t(N1));
+	mc::set32(img.bytes, fieldAt("block1.length+flag"), uint32_t(N1) | 0x80000000u);
+	uint64_t second = H + 8 + N, third = second + 8 + N1;
+	if (third != 0xFFFFFFF8ull) std::abort();
 	mc::set32(img.bytes, fieldAt("entry1.blockOffset"), uint32_t(second));
+	mc::set32(img.bytes, fieldAt("entry2.blockOffset"), uint32_t(third));
 	{
 		int fd = ::open("big.vol", O_CREAT | O_TRUNC | O_WRONLY, 0644); if (fd < 0) std::abort();
-		std::size_t head = img.blockOffsets[0] + 8;
+		std::size_t head = std::size_t(H) + 8;
 		if (::pwrite(fd, img.bytes.data(), head, 0) != ssize_t(head)) std::abort();
-		if (::pwrite(fd, img.bytes.data() + img.blockOffsets[1], img.bytes.size() - img.blockOffsets[1], off_t(second)) != ssize_t(img.bytes.size() - img.blockOffsets[1])) std::abort();
+		if (::pwrite(fd, img.bytes.data() + img.blockOffsets[1], 8, off_t(second)) != 8) std::abort();
+		if (::pwrite(fd, img.bytes.data() + img.blockOffsets[2], img.bytes.size() - img.blockOffsets[2], off_t(third)) != ssize_t(img.bytes.size() - img.blockOffsets[2])) std::abort();
 		::close(fd);
 	}
+	key = "members a_big.bin (2147483632 zero bytes), b_big.bin (about 2 GiB) and c_small.txt (43 bytes, data at offset 2^32)";
 #endif
+	ctx.sub(key);
 	auto o = mc::guarded([&] {
 		Archive::VolFile v("big.vol");
-		if (v.GetCount() != 2 || v.GetName(0) != "a_big.bin" || v.GetName(1) != "b_small.txt") throw std::runtime_error("listing differs");
-		if (v.GetSize(0) != N || v.GetSize(1) != small.size()) throw std::runtime_error("sizes " + std::to_string(v.GetSize(0)) + ", " + std::to_string(v.GetSize(1)));
+		const std::size_t last = VOL_CHECK == 1 ? 1 : 2;
+		const std::string smallName = VOL_CHECK == 1 ? "b_small.txt" : "c_small.txt";
+		if (v.GetCount() != last + 1 || v.GetName(0) != "a_big.bin" || v.GetName(last) != smallName) throw std::runtime_error("listing differs");
+		if (v.GetSize(0) != N || v.GetSize(last) != small.size()) throw std::runtime_error("sizes " + std::to_string(v.GetSize(0)) + ", " + std::to_string(v.GetSize(last)));
 		for (int byName = 0; byName < 2; ++byName) {
 			Archive::ArchiveFile& av = v;
-			auto st = byName ? av.OpenStream(std::string("B_SMALL.TXT")) : v.OpenStream(1);
+			std::string upper = smallName; for (auto& c : upper) c = char(std::toupper(static_cast<unsigned char>(c)));
+			auto st = byName ? av.OpenStream(upper) : v.OpenStream(last);
 			ctx.transition();
 			std::vector<uint8_t> got(std::size_t(st->Length()));
 			st->Read(got.data(), got.size());
 			if (got != small) throw std::runtime_error("member stream of the member stored beyond 2 GiB differs");
 		}
-		v.ExtractFile(1, "x_small.txt");
+		v.ExtractFile(last, "x_small.txt");
 		ctx.transition();
 		if (mc::readFile("x_small.txt") != small) throw std::runtime_error("extraction of the member stored beyond 2 GiB differs");
 		auto big = v.OpenStream(0);
@@ -551,6 +571,11 @@ void beyond2GiB(Ctx& ctx, Scenario& sc)
 	});
 	if (o.cls != 'R') ctx.violation(std::string(kId) + "/beyond-2GiB/reopen-or-extract-throws", key, o.what);
 	ctx.count("beyond-2GiB/archives");
+	if (VOL_CHECK == 2 && o.cls == 'R') {
+		// the second big member: its stream ends right in front of the third block header
+		auto o2 = mc::guarded([&] { Archive::VolFile v("big.vol"); auto st = v.OpenStream(1); uint8_t b[8] = { 1, 1, 1, 1, 1, 1, 1, 1 }; st->Seek(st->Length() - 8); st->Read(b, 8); for (auto x : b) if (x) throw std::runtime_error("tail of the second 2 GiB member differs"); });
+		if (o2.cls != 'R') ctx.violation(std::string(kId) + "/beyond-2GiB/reopen-or-extract-throws", key, o2.what);
+	}
 	ctx.state(); ctx.trace();
 }
 
@@ -590,6 +615,6 @@ int main(int argc, char** argv)
 	def.run = runCase;
 	def.describe = [](std::size_t i) { return i < nChunks() ? "file sets " + std::to_string(i * kChunk) + ".." : "extra case " + std::to_string(i - nChunks()); };
 	def.caseTimeoutS = 300;
-	def.fsizeLimit = std::size_t(3) << 30;   // the archive beyond 2 GiB
+	def.fsizeLimit = std::size_t(5) << 30;   // the archives beyond 2 GiB and 4 GiB
 	return mc::Main(argc, argv, def);
 }
